@@ -67,6 +67,9 @@ func Create(ec elliptic.Curve, threshold int, secret *big.Int, indexes []*big.In
 	if threshold < 1 {
 		return nil, nil, errors.New("vss threshold < 1")
 	}
+	// the secret is a residue modulo q: ScalarBaseMult only sees the magnitude of its argument, so for a negative
+	// big.Int -s the first commitment would be s*G while the shares are dealt for -s (mod q), and no share would verify
+	secret = new(big.Int).Mod(secret, ec.Params().N)
 
 	ids, err := CheckIndexes(ec, indexes)
 	if err != nil {
